@@ -258,6 +258,8 @@ class IntervalProd(Set):
         """
         try:
             # Duck-typed check of type
+            if np.iscomplexobj(point):
+                return False
             point = np.array(point, dtype=float, copy=False, ndmin=1)
         except (ValueError, TypeError):
             return False
@@ -284,6 +286,8 @@ class IntervalProd(Set):
         """
         try:
             # Duck-typed check of type
+            if np.iscomplexobj(other):
+                return False
             point = np.array(other, dtype=float, copy=False, ndmin=1)
         except (ValueError, TypeError):
             return False
